@@ -17,10 +17,19 @@ and suggestion-operation writes the service can issue, and every read returns th
 (`c07_store_simulation`); the one place where the two stores differ at the datastore level -
 `create_trial` into a study that does not exist - is exhibited (`c07_create_trial_orphan_counterexample`)
 and excluded by the guard the service provides.  `len(ops)` (RAM) and `max(operation_number)` (SQL)
-agree on consecutively numbered operation lists (`c07_op_number_len_eq_max`).
+agree on consecutively numbered operation lists (`c07_op_number_len_eq_max`).  `update_metadata` is one of
+the write calls of that simulation (study must exist, every named trial must exist before anything is
+written, then last-writer-wins merges).
+
+(4) Early-stopping operations (Model/StoresEs.lean): RAM's per-study dict and SQL's table are related by
+an observational simulation along every sequence of study creations / deletions and early-stopping
+operation writes the service issues (`c07_es_store_simulation`); the two datastore-level differences
+(SQL inserts an operation of a study that does not exist; RAM's update is an upsert) are exhibited and
+excluded by the service's guards.
 -/
 import VizierModel.Lemmas.ServiceEs
 import VizierModel.Lemmas.StoresRun
+import VizierModel.Lemmas.StoresEs
 
 namespace VizierModel.C07
 open VizierModel.Svc
@@ -114,6 +123,58 @@ example :
     (Sql.empty.runW ops).2 = [none, none, none, some .notFound, none, some .notFound] ∧
     ((Sql.empty.runW ops).1.opsOf ("o", "s") "w").map (fun o => (o.num, o.done)) = [(1, false), (2, true)] ∧
     ((Ram.empty.runW ops).1.maxOpNumber ("o", "s") "w").toOption = some 2 := by decide
+
+open VizierModel.Stores in
+/-- non-vacuity for `update_metadata`: a successful update is visible through `load_study` / `get_trial`
+    on both stores; an update naming a trial that does not exist fails and changes NOTHING (the study part
+    is not written either) -/
+example :
+    let t : Trial := { id := 1, state := .active, client := "w", params := 3, meas := [], final := none, reason := "", md := [] }
+    let h : Head := { state := .active, spec := 0, md := [] }
+    let ops : List WOp := [.createStudy ("o", "s") h, .createTrial ("o", "s") t,
+      .updateMetadata ("o", "s") { study := [(("", "a"), "1")], trials := [(1, [(("n", "b"), "2")])] },
+      .updateMetadata ("o", "s") { study := [(("", "a"), "LOST")], trials := [(1, [(("n", "b"), "LOST")]), (7, [])] }]
+    (Sql.empty.runW ops).2 = [none, none, none, some .notFound] ∧
+    (Ram.empty.runW ops).2 = [none, none, none, some .notFound] ∧
+    ((Sql.empty.runW ops).1.loadStudy ("o", "s")).toOption.map (·.md) = some [(("", "a"), "1")] ∧
+    ((Ram.empty.runW ops).1.getTrial ("o", "s") 1).toOption.map (·.md) = some [(("n", "b"), "2")] := by decide
+
+open VizierModel.Stores VizierModel.StoresEs in
+/-- **Early-stopping operations**: for every sequence of study creations / deletions and early-stopping
+    operation writes (failing calls included) from the empty stores, the nested-dict store and the table
+    store report the same outcome for every call and afterwards return the same value for every
+    `get_early_stopping_operation`. -/
+theorem c07_es_store_simulation (ops : List EOp) (k : SKey) (id : Nat) :
+    (RamE.runE [] ops).2 = (SqlE.runE SqlE.empty ops).2 ∧
+    (RamE.runE [] ops).1.getEs k id = (SqlE.runE SqlE.empty ops).1.getEs k id := by
+  have h := runE_sim ops [] SqlE.empty sim_empty
+  exact ⟨h.1, getEs_sim h.2 k id⟩
+
+open VizierModel.Stores VizierModel.StoresEs in
+/-- non-vacuity: create / duplicate create / update / delete study (the operation goes with it) /
+    re-create: the operation of the old study is gone on both stores -/
+example :
+    let o : EsOp := { trialId := 3, active := true, shouldStop := false }
+    let ops : List EOp := [.createStudy ("o", "s"), .createEs ("o", "s") o, .createEs ("o", "s") o,
+      .updateEs ("o", "s") { o with active := false, shouldStop := true }, .createEs ("o", "zz") o,
+      .updateEs ("o", "s") { o with trialId := 4 }]
+    (SqlE.runE SqlE.empty ops).2 = [none, none, some .alreadyExists, none, some .notFound, some .notFound] ∧
+    ((RamE.runE [] ops).1.getEs ("o", "s") 3).toOption.map (·.shouldStop) = some true ∧
+    ((SqlE.runE SqlE.empty (ops ++ [.deleteStudy ("o", "s"), .createStudy ("o", "s")])).1.getEs ("o", "s") 3).toOption = none ∧
+    ((RamE.runE [] (ops ++ [.deleteStudy ("o", "s"), .createStudy ("o", "s")])).1.getEs ("o", "s") 3).toOption = none := by
+  decide
+
+open VizierModel.Stores VizierModel.StoresEs in
+/-- WITHOUT the service's guards the stores differ at the datastore level (replayed on the real stores by
+    the check): SQL inserts an early-stopping operation of a study that does not exist where RAM reports
+    NOT_FOUND, and RAM's update of an operation that does not exist creates it where SQL reports NOT_FOUND -/
+theorem c07_es_unguarded_counterexamples :
+    let o : EsOp := { trialId := 1, active := true, shouldStop := false }
+    (match SqlE.empty.createEs ("o", "s") o with | .ok q => q.es.length | .error _ => 0) = 1 ∧
+    (match RamE.createEs [] ("o", "s") o with | .error .notFound => true | _ => false) = true ∧
+    (match RamE.updateEs [(("o", "s"), [])] ("o", "s") o with | .ok r => (RamE.getEs r ("o", "s") 1).toOption.isSome | .error _ => false) = true ∧
+    (match SqlE.updateEs { studies := [("o", "s")], es := [] } ("o", "s") o with | .error .notFound => true | _ => false) = true := by
+  decide
 
 open VizierModel.Stores in
 /-- WITHOUT the service's guard the stores differ: SQL `create_trial` does not check that the study
